@@ -28,6 +28,8 @@ def h_stage(ctx, case):
 HARNESSES = [
     Harness('statistics_stage', h_stage, setup=RS.setup,
             cases=[{'cells': 2, 'genes': 1, 'clusters': 2},
+                   {'cells': 2, 'genes': 1, 'clusters': 2, 'via_tree': True,
+                    'max_proc': 2},
                    {'cells': 3, 'genes': 1, 'clusters': 2, 'max_proc': 2},
                    {'files': 2, 'cells': 2, 'genes': 1, 'clusters': 2,
                     'max_proc': 2},
@@ -49,6 +51,7 @@ HARNESSES = [
                 {'files': 3, 'cells': 1, 'genes': 1, 'clusters': 2}],
             funcs=['precompute_from_anndata.precompute_summary_stats_from_'
                    'h5ad_and_lookup',
+                   'precompute_summary_stats_from_h5ad_list_and_tree',
                    '_precompute_summary_stats_from_h5ad_and_lookup',
                    '_process_chunk_spec', '_process_chunk',
                    'stats_utils.summary_stats_for_chunk',
